@@ -6,6 +6,7 @@ var (
 	eons12    = []string{"e1", "e2"}
 	eonsAlias = []string{"e1", "hi1", "w1"}
 	eons1     = []string{"e1"}
+	eonsChain = []string{"e0", "e1", "e2"}
 )
 
 // plans: the constant assignments of AccessNodeMC per tier.  Emission bounds (MaxEv / MaxMsg per
@@ -26,6 +27,9 @@ func plans(c *core.Ctx) []Plan {
 			{Name: "odd", Eons: eons1, EvSet: "odd", MsgSet: "odd", MaxEv: 3, MaxMsg: 2, Replay: 20000, Universes: 4, DesignEv: 4, DesignMsg: 2},
 			// two nodes, same events in different orders
 			{Name: "twin", Eons: eons1, NN: 2, EvSet: "twin", MsgSet: "twin", MaxEv: 3, MaxMsg: 1, Replay: 12000, Universes: 3},
+			// the real chain sync client between a fake execution node and the access node: one node
+			// started at block 0, one when the chain has its full length
+			{Name: "chain", Eons: eonsChain, NN: 2, MaxChain: 4, Universes: 3},
 		}
 	}
 	return []Plan{
@@ -34,7 +38,9 @@ func plans(c *core.Ctx) []Plan {
 		{Name: "classes-e1", Eons: eons12, EvSet: "e1only", MsgSet: "classes", MaxEv: 2, MaxMsg: 2, Replay: 1400, Universes: 2},
 		{Name: "alias", Eons: eonsAlias, Huge: []string{"hi1"}, EvSet: "alias", MsgSet: "alias", MaxEv: 4, MaxMsg: 2, Replay: 900, Universes: 2},
 		{Name: "odd", Eons: eons1, EvSet: "odd", MsgSet: "odd", MaxEv: 3, MaxMsg: 1, Replay: 1200, Universes: 2},
-		{Name: "twin", Eons: eons1, NN: 2, EvSet: "twin", MsgSet: "twin", MaxEv: 2, MaxMsg: 1, Replay: 900, Universes: 2},
+		{Name: "twin", Eons: eons1, NN: 2, EvSet: "tiny", MsgSet: "tiny", MaxEv: 3, MaxMsg: 1, Replay: 900, Universes: 2},
+		{Name: "twin-key", Eons: eons1, NN: 2, EvSet: "twin", MsgSet: "twin", MaxEv: 2, MaxMsg: 1, Replay: 600, Universes: 2},
+		{Name: "chain", Eons: eonsChain, NN: 2, MaxChain: 3, Universes: 2},
 	}
 }
 
@@ -46,6 +52,6 @@ func altPlans() []Plan {
 		{Name: "alt-first", Eons: eons1, EvSet: "tiny", MsgSet: "tiny", StoreRule: "first", DesignEv: 3, DesignMsg: 2, Expect: []string{"C06_If", "C06_OnlyIf"}},
 		{Name: "alt-keyfirst", Eons: eons12, EvSet: "order", MsgSet: "combos", KeyStoreRule: "first", DesignEv: 3, DesignMsg: 1, Expect: []string{"C06_If"}},
 		// the proposed repairs: nothing but the re-announcement effects is left
-		{Name: "alt-repaired", Eons: eons1, EvSet: "odd", MsgSet: "odd", MissRule: "ignore", KeyDecode: "strict", IntRule: "checked", DesignEv: 3, DesignMsg: 2, Expect: []string{}},
+		{Name: "alt-repaired", Eons: eons1, EvSet: "odd", MsgSet: "odd", MissRule: "ignore", KeyDecode: "strict", IntRule: "clamp", DesignEv: 3, DesignMsg: 2, Expect: []string{}},
 	}
 }
